@@ -44,46 +44,86 @@ def rand_quadratic(rng, n, linear=False):
     return Q, b, c
 
 
-def stencil_records(ctx, rng, nid):
+KINDS = ['zero', 'tiny', 'small', 'neg', 'ord', 'big']
+
+
+def param_of(rng, eps, kind):
+    """a parameter value of the given class (see rand_param)"""
+    while True:
+        if kind == 'zero':
+            return 0.0
+        p = {'tiny': lambda: 10 ** rng.uniform(-12, -8),
+             'small': lambda: rng.choice([0.2, 0.5, 3.0, 20.0]) * 1e-6 / eps,          # both sides of the 1e-6/eps threshold
+             'neg': lambda: -10 ** rng.uniform(-3, 1),
+             'big': lambda: 10 ** rng.uniform(1, 3),
+             'ord': lambda: 10 ** rng.uniform(-2, 1)}[kind]()
+        if not (0.9e-6 < p * eps < 1.1e-6):
+            return p
+
+
+def stencil_pair(nid, Q, b, c, p, eps, pform='list', extra=None):
+    """get_hess and get_grad on f(x) = x'Qx/2 + b'x + c at p; pform: how the parameter vector is passed;
+    extra: a constant passed through args=(extra,) and added by f (so the recorded constant is c + extra)."""
     from dadi import Godambe
+    Q, b = np.asarray(Q, dtype=float), np.asarray(b, dtype=float)
+
+    def f(x, *args):
+        x = np.asarray(x, dtype=float)
+        return 0.5 * float(x @ Q @ x) + float(b @ x) + c + (args[0] if args else 0.0)
+    arg = {'list': lambda: [float(v) for v in p], 'tuple': lambda: tuple(float(v) for v in p), 'array': lambda: np.array(p, dtype=float),
+           'intlist': lambda: [int(v) for v in p], 'intarray': lambda: np.array([int(v) for v in p])}[pform]
+    args = () if extra is None else (extra,)
+    inp = {'Q': rats(Q), 'b': rats(b), 'c': rat(Fraction(c) + Fraction(extra or 0.0)), 'p': rats([float(v) for v in p]), 'eps': rat(eps),
+           'pform': pform, 'args': extra is not None}
     recs = []
-    ncase = 60 if ctx.quick else 600
-    for k in range(ncase):
+    try:
+        out = {'H': rats(np.asarray(Godambe.get_hess(f, arg(), eps, args=args), dtype=float))}
+    except Exception as e:
+        out = {'raised': type(e).__name__}
+    recs.append({'id': 'hess-%d' % next(nid), 'op': 'hess', 'site': 'Godambe.get_hess', 'in': inp, 'out': out})
+    try:
+        out = {'g': rats(np.asarray(Godambe.get_grad(f, arg(), eps, args=args), dtype=float).ravel())}
+    except Exception as e:
+        out = {'raised': type(e).__name__}
+    recs.append({'id': 'grad-%d' % next(nid), 'op': 'grad', 'site': 'Godambe.get_grad', 'in': inp, 'out': out})
+    return recs
+
+
+def stencil_records(ctx, rng, nid):
+    recs = []
+    # ---- deterministic part (every tier): each element of the stated domain is drawn on purpose
+    ends = [1e-4, 1e-1]                                  # both end points of the eps range
+    j = 0
+    for kind in KINDS:                                   # one parameter: every class x quadratic/linear x both eps end points
+        for linear in (False, True):
+            eps = ends[j % 2]
+            j += 1
+            Q, b, c = rand_quadratic(rng, 1, linear)
+            if not linear and Q[0, 0] == 0:
+                Q[0, 0] = 2.5
+            recs += stencil_pair(nid, Q, b, c, [param_of(rng, eps, kind)], eps)
+    for n in (2, 3, 4, 5):                               # 2-5 parameters, classes mixed within the vector, quadratic and linear
+        for linear in (False, True):
+            eps = [1e-4, 1e-1, 1e-2, 1e-3][(n + linear) % 4]
+            Q, b, c = rand_quadratic(rng, n, linear)
+            p = [param_of(rng, eps, KINDS[(n + i + 3 * linear) % 6]) for i in range(n)]
+            recs += stencil_pair(nid, Q, b, c, p, eps)
+    for p, eps in (([0.0, 0.0, 0.0], 1e-2), ([1e-9, 3e-10], 1e-1), ([-1.5, -0.25], 1e-4)):      # all zero / all tiny / all negative
+        Q, b, c = rand_quadratic(rng, len(p), False)
+        recs += stencil_pair(nid, Q, b, c, p, eps)
+    Q, b, c = rand_quadratic(rng, 3, False)              # the ways a caller passes the parameter vector, and args=
+    for pform in ('list', 'tuple', 'array', 'intlist', 'intarray'):
+        recs += stencil_pair(nid, Q, b, c, [2, 1, 3], 1e-2, pform=pform)
+    recs += stencil_pair(nid, Q, b, 0.0, [0.5, 0.0, 2.0], 1e-2, extra=1.75)
+    # ---- random part
+    for k in range(45 if ctx.quick else 600):
         n = rng.choice([1, 2, 2, 3, 3, 4, 5])
         eps = 10 ** rng.uniform(-4, -1)
-        linear = rng.random() < 0.3
-        Q, b, c = rand_quadratic(rng, n, linear)
+        Q, b, c = rand_quadratic(rng, n, rng.random() < 0.3)
         p = [rand_param(rng, eps) for _ in range(n)]
-
-        def f(x, *args):
-            x = np.asarray(x, dtype=float)
-            return 0.5 * float(x @ Q @ x) + float(b @ x) + c
-        inp = {'Q': rats(Q), 'b': rats(b), 'c': rat(c), 'p': rats(p), 'eps': rat(eps)}
-        try:
-            out = {'H': rats(np.asarray(Godambe.get_hess(f, list(p), eps), dtype=float))}
-        except Exception as e:
-            out = {'raised': type(e).__name__}
-        recs.append({'id': 'hess-%d' % next(nid), 'op': 'hess', 'site': 'Godambe.get_hess', 'in': inp, 'out': out})
-        try:
-            out = {'g': rats(np.asarray(Godambe.get_grad(f, list(p), eps), dtype=float).ravel())}
-        except Exception as e:
-            out = {'raised': type(e).__name__}
-        recs.append({'id': 'grad-%d' % next(nid), 'op': 'grad', 'site': 'Godambe.get_grad', 'in': inp, 'out': out})
-        if k % 6 == 0:
-            # parameter vectors given as Python ints / an integer array (a start point such as [2, 1]): same values, same stencil
-            pi = [rng.randint(1, 4) for _ in range(n)]
-            inp2 = dict(inp, p=rats([float(v) for v in pi]), inttype=True)
-            for tag, arg in (('list', list(pi)), ('array', np.array(pi))):
-                try:
-                    out = {'g': rats(np.asarray(Godambe.get_grad(f, arg, eps), dtype=float).ravel())}
-                except Exception as e:
-                    out = {'raised': type(e).__name__}
-                recs.append({'id': 'grad-%d' % next(nid), 'op': 'grad', 'site': 'Godambe.get_grad', 'in': inp2, 'out': out})
-                try:
-                    out = {'H': rats(np.asarray(Godambe.get_hess(f, arg, eps), dtype=float))}
-                except Exception as e:
-                    out = {'raised': type(e).__name__}
-                recs.append({'id': 'hess-%d' % next(nid), 'op': 'hess', 'site': 'Godambe.get_hess', 'in': inp2, 'out': out})
+        recs += stencil_pair(nid, Q, b, c, p, eps, pform=rng.choice(['list', 'list', 'array', 'tuple']))
+        if k % 8 == 0:
+            recs += stencil_pair(nid, Q, b, c, [rng.randint(1, 4) for _ in range(n)], eps, pform=rng.choice(['intlist', 'intarray']))
     return recs
 
 
